@@ -78,4 +78,85 @@ theorem solveFwd_solution (A : Analysis D) (g : Graph) (univ : D) (bc : Nat → 
   · intro b hb hnot
     exact absurd (by simpa using hall b hb) hnot
 
+/-- what the new live-out of `b` reads -/
+def bwdInputs (g : Graph) (b : Nat) : List Nat :=
+  (if g.isLeaf b then [b] else []) ++ g.nextG b ++ (match g.retPointOf b with | some r => [r] | none => [])
+
+/-- decidable conditions for the backward pass: successor lists are mirrored by predecessor lists, a call site's return
+    point has it as call site, and every non-leaf block is initially queued -/
+def bwdWF (g : Graph) : Bool :=
+  g.keys.all (fun b => (g.nextG b).all fun n => (g.prevG n).contains b) &&
+  g.keys.all (fun b => match g.retPointOf b with | some r => g.callsubOf r == some b | none => true) &&
+  g.keys.all (fun b => g.isLeaf b || (bwdWorklist g).contains b)
+
+theorem bwdF_local (A : Analysis D) (g : Graph) (bc : Nat → D) (cur cur' : List (Nat × D)) (b : Nat)
+    (h : ∀ i ∈ bwdInputs g b, getMap cur i A.dom.null = getMap cur' i A.dom.null) :
+    bwdF A g bc cur b = bwdF A g bc cur' b := by
+  unfold bwdF
+  by_cases hl : g.isLeaf b = true
+  · simp only [hl, if_true]
+    exact h b (by simp [bwdInputs, hl])
+  · simp only [hl]
+    have hfold : (g.nextG b).foldl (fun acc n => A.dom.union acc (getMap cur n A.dom.null)) A.dom.null =
+        (g.nextG b).foldl (fun acc n => A.dom.union acc (getMap cur' n A.dom.null)) A.dom.null := by
+      apply foldl_congr
+      intro acc x hx
+      rw [h x (by simp [bwdInputs, hx])]
+    simp only [hfold]
+    cases hc : g.retPointOf b with
+    | none => rfl
+    | some r =>
+      have : getMap cur r A.dom.null = getMap cur' r A.dom.null := h r (by simp [bwdInputs, hc])
+      simp [this]
+
+/-- the backward solver returns a solution on every block of the function (leaves keep their forward value) -/
+theorem solveBwd_solution (A : Analysis D) (g : Graph) (ctx1 : Nat → D)
+    (hwf : bwdWF g = true) (r : List (Nat × D)) (h : solveBwd A g ctx1 = some r) :
+    ∀ b ∈ g.keys, getMap r b A.dom.null = bwdF A g ctx1 r b := by
+  simp only [bwdWF, Bool.and_eq_true, List.all_eq_true] at hwf
+  obtain ⟨⟨hmirror, hret⟩, hall⟩ := hwf
+  intro b hb
+  by_cases hl : g.isLeaf b = true
+  · unfold bwdF; simp [hl]
+  · unfold solveBwd at h
+    refine Worklist.worklistRun_solutionP (fun b => b ∈ g.keys ∧ ¬ g.isLeaf b = true) (bwdF A g ctx1) (bwdDeps g) (bwdInputs g)
+      A.dom.null (bwdF_local A g ctx1) ?_ _ _ _ ?_ r h b ⟨hb, hl⟩
+    · intro b i hb hi
+      obtain ⟨hbk, hbl⟩ := hb
+      have hbl' : g.isLeaf b = false := by simpa using hbl
+      simp only [bwdInputs, hbl', List.mem_append] at hi
+      simp only [bwdDeps, List.mem_append]
+      rcases hi with (hi | hi) | hi
+      · simp at hi
+      · left
+        have := hmirror b hbk i hi
+        simpa using this
+      · right
+        have hr := hret b hbk
+        cases hc : g.retPointOf b with
+        | none => simp [hc] at hi
+        | some r' =>
+          simp only [hc, List.mem_singleton] at hi
+          subst hi
+          simp only [hc] at hr
+          have : g.callsubOf i = some b := by simpa using hr
+          simp [this]
+    · intro b hb hnot
+      obtain ⟨hbk, hbl⟩ := hb
+      have := hall b hbk
+      simp only [Bool.or_eq_true] at this
+      rcases this with h' | h'
+      · exact absurd h' hbl
+      · exact absurd (by simpa using h') hnot
+
+/-- in what the backward solver returns, a leaf block has its forward value -/
+theorem solveBwd_leaf (A : Analysis D) (g : Graph) (ctx1 : Nat → D) (r : List (Nat × D))
+    (h : solveBwd A g ctx1 = some r) (b : Nat) (hb : b ∈ g.keys) (hl : g.isLeaf b = true) :
+    getMap r b A.dom.null = ctx1 b := by
+  unfold solveBwd at h
+  refine Worklist.worklistRun_keeps (bwdF A g ctx1) (bwdDeps g) A.dom.null b (ctx1 b) ?_ _ _ _ ?_ r h
+  · intro cur; unfold bwdF; simp [hl]
+  · rw [Worklist.getMap_map_keys g.keys (fun k => if g.isLeaf k then ctx1 k else A.dom.null) b A.dom.null hb]
+    simp [hl]
+
 end Tealer.Solver
